@@ -15,9 +15,14 @@
        false of viper ([c15_last_wins_conflict_refuted], known finding KF-C15b);
      * "options that add a source never discard earlier sources": proved for the repaired
        AddConfigLoader ([c15_add_monotone]); false of the unrepaired one
-       ([c15_add_monotone_refuted], defect D-C15a, fixes/D-C15a.diff). *)
+       ([c15_add_monotone_refuted], defect D-C15a, fixes/D-C15a.diff);
+     * the command-line source is modelled from the argument STRINGS ([parse_arg], [argv_load]): the value of
+       "--app.config=K=V" is everything after the first '=' ([c15_args_value_is_rest_after_first_eq]), typed by
+       strconv2.ParseAny (Model/Strconv.v); the string loader is the typed loader on the typed arguments
+       ([c15_args_strings_typed]), so the statements above cover it. *)
 From Coq Require Import List String ZArith Bool Permutation.
 From IocVerif Require Import Model.Sorter Model.ConfigMerge Proofs.ConfigMergeProofs.
+From IocVerif Require Model.Strconv.
 Import ListNotations.
 Local Open Scope string_scope.
 Local Open Scope list_scope.
@@ -181,8 +186,26 @@ Qed.
 (* KF-C15c: inside one ArgsLoader a scalar "k=a" followed by a dotted "k.k2...=b" panics
    (go-kid/properties buildMap), whatever precedes or follows; the opposite order is fine. *)
 Theorem c15_args_scalar_then_dotted_panics : forall m k a k2 r b rest,
-  args_fold (([k], a) :: (k :: k2 :: r, b) :: rest) m = None.
+  args_fold (([k], CLeaf a) :: (k :: k2 :: r, b) :: rest) m = None.
 Proof. exact args_scalar_then_dotted_panics. Qed.
+
+(* The command-line source, from the argument strings.  "--app.config=K=V" with no '=' in K supplies the key path
+   of K (split at '.') with the value that strconv2.ParseAny reads from V, where V is EVERYTHING after the first
+   '=' - further '=' signs, ':' '#' ',' blanks and so on belong to the value; a V that ParseAny reads as a text
+   ([Strconv.plain]: not quoted, not bracketed, not a number, not true/false) is supplied unchanged. *)
+Theorem c15_args_value_is_rest_after_first_eq : forall k v,
+  Strconv.byte_index b_eq k = None ->
+  parse_arg (lit_flag_eq ++ k ++ b_eq :: v) =
+  Some (Strconv.rbind (Strconv.parse_any v) (fun tv => Strconv.Ok (key_path k, tree_of_cval tv)))
+  /\ (Strconv.plain v = true ->
+      parse_arg (lit_flag_eq ++ k ++ b_eq :: v) = Some (Strconv.Ok (key_path k, CLeaf (AStr (string_of_bytes v))))).
+Proof. intros k v Hk. split; [apply parse_arg_key_value, Hk|apply parse_arg_key_plain, Hk]. Qed.
+
+(* the loader on argument strings = the loader on the typed arguments (so everything proved about loader
+   sequences and merges applies to it); arguments that do not start with --app.config are skipped *)
+Theorem c15_args_strings_typed : forall argv args,
+  argv_typed argv = Strconv.Ok args -> load (mkLoader 0 (LArgv argv)) = load (mkLoader 0 (LArgs args)).
+Proof. intros argv args H. cbn [load lk]. apply argv_load_typed, H. Qed.
 
 (* ---- non-vacuity ---------------------------------------------------------------------- *)
 
@@ -219,7 +242,7 @@ Proof. reflexivity. Qed.
 
 Definition ex_raw := mkLoader 0 (LRaw (Some ex_d1)).
 Definition ex_file := mkLoader 1 (LFile (Some (Some ex_d2))).
-Definition ex_args := mkLoader 2 (LArgs [(["db"; "port"], AInt 3)]).
+Definition ex_args := mkLoader 2 (LArgs [(["db"; "port"], CLeaf (AInt 3))]).
 Definition ex_file2 := mkLoader 3 (LFile (Some (Some ex_d3))).
 
 Example c15_sequence_example :
@@ -288,10 +311,21 @@ Example c15_add_monotone_example :
 Proof. repeat split. Qed.
 
 Example c15_args_example :
-  args_load [(["a"; "b"], AInt 2); (["a"], AInt 1)] = LoadOk (Some [("a", CLeaf (AInt 1))]) /\
-  args_load [(["a"], AInt 1); (["a"; "b"], AInt 2)] = LoadPanic /\
+  args_load [(["a"; "b"], CLeaf (AInt 2)); (["a"], CLeaf (AInt 1))] = LoadOk (Some [("a", CLeaf (AInt 1))]) /\
+  args_load [(["a"], CLeaf (AInt 1)); (["a"; "b"], CLeaf (AInt 2))] = LoadPanic /\
   args_load [] = LoadOk None.
 Proof. repeat split. Qed.
+
+(* prog -x --app.config=db.dsn=user:pw@tcp(h:3306)/db?x=1&y=2 --app.config=db.port=8080 --app.config=db.tags=[a=b,c]
+   --app.config=db.name="quoted" --app.config=db.flag *)
+Example c15_args_strings_example :
+  argv_load (map bytes_of_string
+    ["prog"; "-x"; "--app.config=db.dsn=user:pw@tcp(h:3306)/db?x=1&y=2"; "--app.config=db.port=8080";
+     "--app.config=db.tags=[a=b,c]"; "--app.config=db.name=""quoted"""; "--app.config=db.flag"]) =
+  LoadOk (Some [("db", CMap [("dsn", CLeaf (AStr "user:pw@tcp(h:3306)/db?x=1&y=2")); ("port", CLeaf (AInt 8080));
+                             ("tags", CList [CLeaf (AStr "a=b"); CLeaf (AStr "c")]); ("name", CLeaf (AStr "quoted"));
+                             ("flag", CLeaf (AStr ""))])]).
+Proof. vm_compute. reflexivity. Qed.
 
 Example c15_last_map_merges_example :
   last_supplier ["db"] [ex_d1; ex_d2; ex_d3] (CMap [("port", CLeaf (AInt 3))]) /\
